@@ -912,6 +912,14 @@ func lemmaFloorMul(x, d int) {}
 //@   ensures  le: 1000*E <= M*ts <==> float64(E)/float64(ts) <= float64(M)/1000.0
 func lemmaTicksVsMs(E, ts, M int) {}
 
+// lemmaSameNumber: the spec functions at two expressions for the same number (the server counts
+// int(uint32(k+startNr))-startNr, the MPD k; proving their equality is arithmetic, using it is congruence).
+//@ lemma lemmaSameNumber
+//@   realdiv
+//@   requires i == j
+//@   ensures  specEnd(a, rep, i) == specEnd(a, rep, j) && specStart(a, rep, i) == specStart(a, rep, j) && specDur(rep, i) == specDur(rep, j) && specAvailS(a, rep, cfg, i) == specAvailS(a, rep, cfg, j)
+func lemmaSameNumber(a *asset, rep *RepData, cfg *ResponseConfig, i, j int) {}
+
 // lemmaStartsDistinct: different VoD segments start at different times.
 //@ lemma lemmaStartsDistinct
 //@   requires wfRep(rep) && orderedRep(rep) && 0 <= i && i < len(rep.Segments) && 0 <= j && j < len(rep.Segments) && rep.Segments[i].StartTime == rep.Segments[j].StartTime
@@ -1031,9 +1039,9 @@ func lemmaAfterEdgeIsEarly(a *asset, repID string, cfg *ResponseConfig, nowMS in
 	lemmaTicksMs(wt.nowWraps, a.LoopDurMS, ts, wt.nowRelMS, atoMS, W, nowMS-1000*S, nowTicks)
 	next := int(uint32(last+1+snr)) - snr // the number as the server counts it
 	assert(next == last+1)
+	lemmaSameNumber(a, rep, cfg, next, last+1)
 	eNext := specEnd(a, rep, next)
 	assert(nowTicks < specEnd(a, rep, last+1))
-	assert(eNext == specEnd(a, rep, last+1))
 	assert(nowTicks < eNext)
 	lemmaAfterIsEarly(nowTicks, eNext, S, ts, nowMS, atoMS)
 	lemmaPhaseFromTicks(a, rep, cfg, nowMS, next, atoMS)
@@ -1070,8 +1078,8 @@ func lemmaListedIsServed(a *asset, repID string, cfg *ResponseConfig, nowMS, k i
 	lemmaTicksMs(wt.nowWraps, a.LoopDurMS, ts, wt.nowRelMS, atoMS, W, nowMS-1000*S, nowTicks)
 	kk := int(uint32(k+snr)) - snr // the number as the server counts it
 	assert(kk == k)
+	lemmaSameNumber(a, rep, cfg, kk, k)
 	eK := specEnd(a, rep, kk)
-	assert(eK == specEnd(a, rep, k))
 	eLast := specEnd(a, rep, last)
 	assert(eLast <= nowTicks)
 	lemmaSpecEndMono(a, rep, kk, last)
